@@ -143,6 +143,40 @@ func c20(c *Ctx) {
 			}
 		}
 		r.Check(ok, "R20.H", "hosts:membership-on-Hostname", c.pos(hf.Pos()), "stringListContains(ReservedHosts(), u.Hostname()) — u.Host would include the port")
+		// ... and membership is byte equality with a table entry: a folding, prefix or substring comparison admits
+		// look-alike hosts (tele\u017fco.pe folds onto telesco.pe)
+		if sl := c.fn("R20.H", load.DeepPkg, "", "stringListContains"); sl != nil && len(sl.Params) == 2 {
+			var pass []an.Edge
+			for _, i := range an.Ifs(sl) {
+				cd, okc := an.Classify(i)
+				if !okc || cd.Kind != "eq" {
+					continue
+				}
+				isElem := func(v ssa.Value) bool {
+					ld, ok := v.(*ssa.UnOp)
+					if !ok {
+						return false
+					}
+					ia, ok := ld.X.(*ssa.IndexAddr)
+					return ok && ia.X == ssa.Value(sl.Params[0])
+				}
+				if (isElem(cd.X) && cd.Y == ssa.Value(sl.Params[1])) || (isElem(cd.Y) && cd.X == ssa.Value(sl.Params[1])) {
+					pass = append(pass, cd.EdgeWhen(true))
+				}
+			}
+			var trues []ssa.Instruction
+			for _, b := range sl.Blocks {
+				for _, in := range b.Instrs {
+					if ret, ok := an.AsReturn(in); ok && len(ret.Results) == 1 {
+						if k, isK := an.RetVal(ret, 0).(*ssa.Const); !isK || k.Value == nil || k.Value.ExactString() != "false" {
+							trues = append(trues, in)
+						}
+					}
+				}
+			}
+			un := an.Guarded(sl, pass, trues)
+			r.Check(len(pass) > 0 && len(trues) > 0 && len(un) == 0, "R20.H", "hosts:membership-is-byte-equality", c.pos(sl.Pos()), sprintf("%d `l[i] == s` test(s), %d return(s) that may answer true, %d of them reachable without the equal edge of such a test", len(pass), len(trues), len(un)))
+		}
 		if guard != nil {
 			// every template match happens only on the member edge
 			var effects []ssa.Instruction
